@@ -12,7 +12,11 @@ import GV.Lib.IntervalPow
     powers below `maxBits` bits (m up to a few hundred for ordinary f):
                the threshold is computed by `findT` and accepted only if the proved checker
                `certOK` passes (GV.Props.C37.certOK_sound) → exact model and exact spec.
-    otherwise: (1) proved: the implementation's value must lie between the certified thresholds of
+    otherwise: a certificate for `GV.Model.ThresholdCert.check` (exact rational arithmetic; bounds on
+               ln 2 and ln r checked through the Taylor enclosure of exp; proved sound for every
+               denominator, GV.Proofs.ThresholdCert.check_sound) is searched; if the checker accepts it
+               the model and the spec are that threshold, proof-backed.  Only if none is found:
+               (1) proved: the implementation's value must lie between the certified thresholds of
                the two Stern–Brocot neighbours lo ≤ σ ≤ hi with denominators ≤ 64
                (GV.Props.C37.enclosure_sound); (2) glue, not proved: it must equal the value of the
                outward-rounded interval evaluation `GV.Lib.IntervalPow.threshold`, an independent
@@ -98,7 +102,13 @@ def threshold (i : Input) (impl : String) : Thr :=
         else { model := s!"interval-glue-disagrees[{iv.1},{iv.2}] cert={t}", spec := toString t }
       | none => { model := "cert-search-failed", spec := "*" }
     else
-      -- too expensive to certify exactly: proved enclosure (Stern–Brocot neighbours) + interval evaluation
+    -- large denominator: a rational certificate accepted by the PROVED checker
+    -- `GV.Model.ThresholdCert.check` (GV.Proofs.ThresholdCert.check_sound, GV.Props.C37.ratcert_output_correct)
+    match GV.Lib.IntervalPow.certify a b n m U with
+    | some (t, _) => { model := toString t, spec := toString t, value := some t }
+    | none =>
+      -- no certificate (the value sits on an integer boundary at every precision tried):
+      -- proved enclosure (Stern–Brocot neighbours) + unproved interval evaluation
       let enc := enclosure a b n m U
       let insideEnc (t : Nat) : Bool := match enc with
         | some (lo, hi) => decide (lo ≤ t ∧ t ≤ hi)
@@ -121,6 +131,18 @@ def handleOp (op impl : String) : GV.Line.Out :=
   | ["thr", mode, pool, total, fnum, fden] =>
     match parseInput mode pool total fnum fden with
     | some i => let r := threshold i impl; { model := r.model, spec := r.spec, cls := r.cls }
+    | none => badOp
+  | ["certinfo", mode, pool, total, fnum, fden] =>
+    -- diagnostic (never generated): which validation branch an input takes
+    match parseInput mode pool total fnum fden with
+    | some i =>
+      match guards i with
+      | .general a b n m U =>
+        if exactFeasible b m U then { model := "branch=certOK" }
+        else match GV.Lib.IntervalPow.certify a b n m U with
+          | some _ => { model := "branch=ratcert" }
+          | none => { model := "branch=fallback" }
+      | _ => { model := "branch=guard" }
     | none => badOp
   | ["below", mode, vrf, thr] =>
     match parseNat? mode, parseHex? vrf with
@@ -160,7 +182,9 @@ def handleOp (op impl : String) : GV.Line.Out :=
               { model := r, spec := r }
             | none => { model := "cert-search-failed" }
           else
-            let iv := GV.Lib.IntervalPow.threshold a b n m U
+            let iv := match GV.Lib.IntervalPow.certify a b n m U with
+              | some (t, _) => (t, t)
+              | none => GV.Lib.IntervalPow.threshold a b n m U
             let v := beNat (if i.mode = 1 then vrf else leaderValue vrf)
             if v < iv.1 then { model := "1", spec := "1" }
             else if iv.2 ≤ v then { model := "0", spec := "0" }
